@@ -97,26 +97,6 @@ Fixpoint steps_match m auth (cs : confs) (steps : list hstep) : bool :=
       && steps_match m auth cs' rest
   end.
 
-(* End to end, model side: the flow the servers build (publishers of RTSP / RTMP / WebRTC / SRT: FindPathConf, then
-   AddPublisher with SkipAuth and ConfToCompare; every reader: one authenticated AddReader), run on the model with the
-   name's configuration as a static entry and the oracle's verdict for the requested name. The path itself may still
-   refuse a reader (no stream). *)
-Definition e2e_confs (n : str) (c : option Z) : confs := match c with Some c => [(n, c)] | None => [] end.
-
-Definition e2e_flow (publish : bool) : flow :=
-  if publish then FTwoStep KPublisher true true true true else FSingle KReader false false.
-
-Definition has_attached (evs : list (event Z Z)) : bool :=
-  existsb (fun e => match e with Attached _ _ => true | _ => false end) evs.
-
-Definition e2e_model (publish : bool) (n : str) (cr ip : Z) (conf0 : option Z) (reload : option (option Z))
-           (oracle_req : bool) : bool :=
-  has_attached
-    (flow_events (fun _ _ => None)
-                 (fun p n' c i => Bool.eqb p publish && str_eqb n' n && (c =? cr) && (i =? ip) && oracle_req)
-                 (e2e_flow publish) (ENV n n cr cr ip ip None) (e2e_confs n conf0)
-                 (match reload with Some c1 => [e2e_confs n c1] | None => [] end)).
-
 Definition mismatch (c : case) : bool :=
   match c with
   | Hist o t init steps => negb (steps_match (oracle_get o) (auth_get t) init steps)
